@@ -12,8 +12,9 @@ import (
 
 func init() {
 	core.Register(&core.Prop{
-		ID:    "C04",
-		Level: "exploration",
+		ID:          "C04",
+		Level:       "exploration",
+		CaseTimeout: 45e9, // a case of this check takes milliseconds; one that does not end is cut after 45 s
 		Rule: "seeded histories of insert / delete / update (single and batch, batches >= 11, clocks past 10/100) on List and on a Document array, 2-4 replicas, every value a unique tag, interleaved with committed and aborted user transactions of sequence calls (an abort restores the replica from its own snapshot export and replays); after EVERY step the touched replica's full sequence is read and checked: no tag twice, visible elements == elements whose insert the replica has applied minus those whose delete it has applied, every visible tag was written to that element by an applied operation, a local insert at i is readable at i..i+k-1, and a global pairwise order relation over element identities is never contradicted on any replica at any moment; " +
 			"non-trivial = some remote insert was applied whose anchor is a tombstone on the receiving replica or has a concurrently inserted right neighbour (same anchor, another client); distinct = hash of the step script",
 		Assumptions: []string{
